@@ -228,7 +228,18 @@ pub fn run_c10(ctx: &Ctx) -> Report {
                             })
                             .collect();
                         pendl[k].clear();
-                        cv.push(MCmd::Execute { id, params, send_types: true }, Some(Script::Q(QProg::completed(step, 0))));
+                        // the backend may answer an execution with an error - also with one of the errors
+                        // that are *about* prepared statements (unknown handler, needs re-prepare, too many
+                        // statements, ...): that is an answer, not a CLOSE; the id stays usable until the
+                        // client closes it
+                        let answer = if live[k].is_some() && rng.chance(1, 6) {
+                            let code = *rng.pick(&[1243u16, 1615, 1461, 1295, 1444, 1210, 1390, 1146, 1064, 1317]);
+                            rep.counters.inc("executions_answered_with_an_error_about_statements_or_otherwise");
+                            QProg { colsets: vec![], ops: vec![QOp::Error(code, b"from the backend".to_vec())], on_err: OnErr::Drop }
+                        } else {
+                            QProg::completed(step, 0)
+                        };
+                        cv.push(MCmd::Execute { id, params, send_types: true }, Some(Script::Q(answer)));
                         shape.push('E');
                     }
                 }
